@@ -24,8 +24,29 @@ def harnesses(tier):
     h = Harness('R3.Constant', FAM, [rx3], 'c08_reeval.c', cuts=CUTS, shapes=[dict(MODE=3, NODE_EVAL=core.csym(FAM, rx3), _tag='any constant', _witness=('witness: constant evaluated',))],
                 opts=['--unwind', '4', '--unwindset', 'memcmp.0:140'], timeout=60, mem_gb=4, inputs=[], note='')
     h.need_globals = NEED; hs.append(h)
+    CUTS2 = [r'eval_error::', r'Boxed_Value::~Boxed_Value', r'dispatch_error::']
+    rx4 = r'Assign_Decl_AST_Node<.*>::eval_internal\(chaiscript::detail::Dispatch_State const&\) const$'
+    st4 = [r'AST_Node_Impl<.*>::eval\(', r'clone_if_necessary', r'chaiscript::detail::Dispatch_State::add_object', r'chaiscript::Boxed_Value::reset_return_value']
+    h = Harness('R4.Assign_Decl', FAM, [rx4], 'c08_reeval.c', stubs=st4, cuts=CUTS2,
+                shapes=[dict(MODE=4, NODE_EVAL=core.csym(FAM, rx4), CLONE_IF=core.csym(FAM, rx1), ADD_OBJECT=core.csym(FAM, r'chaiscript::detail::Dispatch_State::add_object\('), _tag='var x = e', _witness=('witness: declared', 'witness: initializer throws'))],
+                opts=['--unwind', '6', '--unwindset', 'log_count.0:26,main.0:8,memcmp.0:140'], timeout=300, mem_gb=6, string_model=True, defines={'STRING_LITERALS_OPAQUE': 1}, inputs=['behav'], note='initializer abstract (returns or throws)')
+    h.need_globals = NEED; hs.append(h)
+    rx5 = r'Inline_Map_AST_Node<.*>::eval_internal\(chaiscript::detail::Dispatch_State const&\) const$'
+    CS = r'std::__detail::_Map_base<unsigned long, std::pair<unsigned long const, chaiscript::Type_Conversions::Conversion_Saves>.*::operator\[\]'
+    st5 = [r'AST_Node_Impl<.*>::eval\(', r'clone_if_necessary', r'chaiscript::const_var', r'chaiscript::boxed_cast<', r'std::map<.*>::insert', CS, r'std::map<.*>::~map', r'std::_Rb_tree<.*>::_M_erase', r'std::unordered_map<unsigned long, chaiscript::Type_Conversions::Conversion_Saves.*::~unordered_map']
+    g5, info5 = core.translate(FAM, [rx5], st5[:6], tag='R5_probe', cuts=CUTS2 + st5[6:])
+    import re
+    mret = re.search(r'^(struct agg\d+) F__ZNSt3map\w*6insertI', core.fread(g5), re.M)
+    if not mret: raise core.BuildError('Inline_Map no longer inserts through std::map::insert(pair&&)')
+    h = Harness('R5.Inline_Map', FAM, [rx5], 'c08_reeval.c', stubs=st5[:6], cuts=CUTS2 + st5[6:],
+                shapes=[dict(MODE=5, KE=k, NNODES=8, NODE_EVAL=core.csym(FAM, rx5), CLONE_IF=core.csym(FAM, rx1), CAST_STRING=core.csym(FAM, r'chaiscript::boxed_cast<std::__cxx11::basic_string<char'),
+                             MAP_INSERT=core.csym(FAM, r'std::map<std::__cxx11::basic_string<char.*chaiscript::Boxed_Value, std::less<.*>::insert<std::pair<'), CONST_VAR_MAP=core.csym(FAM, r'chaiscript::const_var<std::map<'), CONV_SAVES=core.csym(FAM, CS), MAP_INSERT_RET=mret.group(1),
+                             _tag='pairs=%d' % k, _witness=('witness: literal built',) + (('witness: pair throws',) if k else ())) for k in (0, 1, 2)],
+                opts=['--unwind', '6', '--unwindset', 'log_count.0:26,main.0:4,main.1:10,main.2:4,memcmp.0:140'], timeout=300, mem_gb=6, string_model=True, defines={'STRING_LITERALS_OPAQUE': 1}, inputs=['behav'],
+                note='K abstract key/value expression pairs (return or throw); std::map::insert is a recorder')
+    h.need_globals = NEED; hs.append(h)
     return hs
 
 ASSUMPTIONS = ['literal values reach Constant nodes through const_var (recorded in the C16 harnesses); their constness protects them (C07)',
                'Boxed_Number::clone, the bool/string box constructors and the script-level clone function produce fresh storage (their own code is not checked here)']
-OUTSIDE = ['Inline_Map and Assign_Decl nodes: to be added', 'functions whose bodies call stdlib mutators bound by raw member pointers (covered by const refusal, C07/C06)']
+OUTSIDE = ['Fun_Call argument passing, Fold_Right_Binary_Operator caching its right constant, Var_Decl / Reference / Global_Decl (bind no value from the tree)', 'functions whose bodies call stdlib mutators bound by raw member pointers (covered by const refusal, C07/C06)']
